@@ -37,10 +37,16 @@ package config
 
 // ---- C19: namespace configuration reloads. The OPL watcher keeps one reader per watched
 // file and re-parses every file on every event.
+// parses: ghost counter of re-parses. Frame of parseFiles (assumed, noframe): the stored
+// readers (consumed and re-armed), the visible namespace set, the ghost counters.
+//@ ghostvar parses int
 //@ func (*oplConfigWatcher).parseFiles
 //@   props C19
 //@   noframe
 //@   requires nw != nil && nw.logger != nil
+//@   modifies rdconsumed(any), mapstate(nw.files.byPath), nw.memoryNamespaceManager.byName, nsversion, parses
+//@   ghost-at-return parses := parses + 1
+//@   ensures parses == old(parses) + 1
 //@   callsite (*memoryNamespaceManager).set requires[C19] keep-last-good: len(errs) == 0
 //@   ensures[C19] parsed-files-take-effect: len(namespaces) > 0 ==> nsversion == old(nsversion) + 1
 //@   loop 1 invariant (isnil(namespaces) || fresh(namespaces)) && (forall i in 0..len(namespaces) :: namespaces[i] != nil)
@@ -67,6 +73,7 @@ package config
 //@ func (*oplConfigWatcher).handleChange
 //@   props C19
 //@   noframe
+//@   ensures[C19] change-is-reparsed-or-nothing-stored-was-read: parses == old(parses) + 1 || (forall k string :: (old(has(nw.files.byPath, k)) && has(nw.files.byPath, k) && nw.files.byPath[k] == old(nw.files.byPath[k])) ==> rdconsumed(nw.files.byPath[k]) == old(rdconsumed(nw.files.byPath[k])))
 //@   requires nw != nil && nw.logger != nil && e != nil && nw.files.byPath != nil
 
 //@ func (*oplConfigWatcher).handleRemove
